@@ -47,13 +47,17 @@ LEVEL_TEXT = ("Props/C01.v composes the component theorems for instance input: a
               "C02 (bookkeeping), C06/C07 (metric definitions), C08 (zero-TP) and C05 (instances of semantic input) this is the documented "
               "procedure. Every kernel on the path is re-translated from the AST each run; evaluate() is compared with the model on enumerated "
               "and random inputs for all input types, matching metrics, thresholds, decision metrics and backends.")
-LEVEL_NOTE = ("Coq: C01_end_to_end is a single end-to-end theorem for unmatched instance input, threshold matcher, IoU/Dice lists, decision metric "
-              "(layer L2, crops as identity, proved harmless by GenEq_Crop + C07_crop_invariant). Semantic input: semantic_pipeline = connected "
+LEVEL_NOTE = ("Coq: end-to-end theorems for unmatched instance input: C01_end_to_end (threshold matcher, IoU/Dice lists, decision metric), "
+              "C01_end_to_end_every_metric (any combination of IoU, Dice, RVD, ASSD, clDice and any decision metric: overlap metrics and RVD by "
+              "the set definitions against the union of the assigned predictions, RVD defined for every evaluated instance, ASSD/clDice "
+              "entries are the geometric values of the evaluated instances, whose meaning is C07/C06), C01_end_to_end_merge_matcher and "
+              "C01_end_to_end_merge_matcher_every_metric (the same for MaximizeMergeMatching, the label map characterised as in C14). Layer "
+              "L2: crops as identity, proved harmless by GenEq_Crop + C07_crop_invariant. Semantic input: semantic_pipeline = connected "
               "components (C05) then the instance pipeline, inside the model (C01_semantic_pipeline_is_composition), and its result does not depend "
               "on how a backend numbers the components when the matching is determined (C01_semantic_result_independent_of_component_numbering, "
-              "from C05 uniqueness + C09 renaming invariance); this path is also run in the engine and compared with evaluate(). ASSD values (C07), "
-              "RVD, merge matcher (C14) are connected through their own theorems and by correspondence, not assembled into the one statement "
-              "(partial). Trusted: Coq kernel, translator, extraction+driver, harness.")
+              "from C05 uniqueness + C09 renaming invariance); this path is also run in the engine and compared with evaluate(). Geometric "
+              "values enter the pipeline model as parameters taken from the implementation's own metric calls (conformance: C07, C06). "
+              "Trusted: Coq kernel, translator, extraction+driver, harness.")
 TECHNIQUE = "machine-checked proof in Rocq (Coq) (composition of component theorems) + AST re-translation + end-to-end model/implementation correspondence"
 
 
